@@ -28,6 +28,9 @@ POOL = [['SpinHalfSite', {'conserve': 'Sz'}], ['SpinSite', {'S': 1.0, 'conserve'
         ['BosonSite', {'Nmax': 2, 'conserve': 'N'}], ['ClockSite', {'q': 3, 'conserve': 'Z'}], ['FermionSite', {'conserve': 'parity'}],
         ['SpinHalfFermionSite', {'cons_N': 'parity', 'cons_Sz': None}], ['BosonSite', {'Nmax': 1, 'conserve': 'parity'}],
         ['SpinSite', {'S': 1.5, 'conserve': 'parity'}], ['FermionSite', {'conserve': None}], ['SpinHalfSite', {'conserve': None}]]
+# sites whose basis is not sorted by charge (a GroupedSite / set_common_charges has to sort them itself)
+UNSORTED = [['SpinHalfSite', {'conserve': 'Sz', 'sort_charge': False}], ['SpinSite', {'S': 1.0, 'conserve': 'parity', 'sort_charge': False}],
+            ['SpinHalfSite', {'conserve': 'parity', 'sort_charge': False}]]
 # add_multi_coupling: chain -> [(allowed dx, numbers of operators)]
 MULTI = dict(quick={'F:N': [((0, 1, 2), (3,))]},
              thorough={'F:N': [((0, 1, 2), (3, 4))], 'species:N,Sz': [((0, 1, 2), (3,))], 'mixed:common': [((0, 1), (3,))]})
@@ -88,6 +91,9 @@ def cases(kind, tier, seed):
         for tr in itertools.product(POOL[:4] if q else POOL[:7], repeat=3):
             for pol in ('same', 'independent'):
                 yield dict(specs=list(tr), policy=pol, sort_charge=True)
+        for a, b in itertools.product(UNSORTED, repeat=2):
+            for pol, sc in itertools.product(('same', 'drop', 'independent'), (True, False)):
+                yield dict(specs=[a, b], policy=pol, sort_charge=sc)
         for specs, nc, names, mod in EXPLICIT:
             yield dict(specs=specs, policy=nc, sort_charge=True, new_names=names, new_mod=mod)
     elif kind == 'species':
@@ -102,6 +108,10 @@ def cases(kind, tier, seed):
                 yield dict(specs=[a, b], charges='same', objects=[0, 0])
         for a, b in itertools.product(POOL[:5], repeat=2):
             yield dict(specs=[a, b], charges='independent', labels=['A', 'B'], objects=[0, 1])
+        for tr in [(a, b) for a, b in itertools.product(UNSORTED + POOL[:3], repeat=2) if a in UNSORTED or b in UNSORTED] + [
+                (UNSORTED[0], UNSORTED[1], POOL[2]), (POOL[1], UNSORTED[2], UNSORTED[0])]:
+            for pol, pre in (('same', True), ('drop', False), ('independent', False)) + ((('same', False),) if tr[0] == tr[-1] else ()):
+                yield dict(specs=list(tr), charges=pol, precommon=pre, objects=list(range(len(tr))))
         for tr in itertools.product(POOL[1:5] if q else POOL[:6], repeat=3):
             for pol in ('same', 'drop', 'independent'):
                 yield dict(specs=list(tr), charges=pol, precommon=(pol == 'same'), objects=[0, 1, 2])
